@@ -1389,6 +1389,12 @@ struct WillCase {
     /// Before the session: the same client id tries to connect WITH a will
     /// while the broker is full and is refused; that will must never appear.
     ghost: bool,
+    /// Nobody is subscribed to the will topic while the session runs; only a
+    /// subscriber that arrives afterwards can see the will (retained or not).
+    late_watcher: bool,
+    /// After the session: the same client id connects again WITHOUT a will
+    /// and that connection is cut; no will may appear.
+    afterlife: bool,
 }
 
 fn gen_will_case(ch: &mut Choices) -> WillCase {
@@ -1428,6 +1434,8 @@ fn gen_will_case(ch: &mut Choices) -> WillCase {
         _ => {}
     }
     let ghost = ch.coin(1, 4);
+    let late_watcher = ch.coin(1, 4);
+    let afterlife = !late_watcher && ch.coin(1, 3);
     WillCase {
         wv5,
         vv5,
@@ -1435,6 +1443,8 @@ fn gen_will_case(ch: &mut Choices) -> WillCase {
         will,
         frames,
         ghost,
+        late_watcher,
+        afterlife,
     }
 }
 
@@ -1460,10 +1470,16 @@ fn run_will_point(case: &WillCase, k: usize, way: u8, ch: &mut Choices, rep: &mu
             sh.viol("watcher_not_connected", "watcher got no CONNACK");
             return;
         }
-        v.send(&subscribe_bytes(case.vv5, 1, "w/#", 1, None)).await;
+        // (with `late_watcher` no filter that matches the will topic exists in the
+        // broker until after the will has fired)
+        let wfilter = if case.late_watcher { "elsewhere/#" } else { "w/#" };
+        v.send(&subscribe_bytes(case.vv5, 1, wfilter, 1, None)).await;
         if !matches!(v.recv(Duration::from_secs(2)).await, Rx::SubAck(1)) {
             sh.viol("watcher_no_suback", "watcher got no SUBACK");
             return;
+        }
+        if case.late_watcher {
+            sh.probe("no_subscriber_while_the_will_fires");
         }
         if case.ghost {
             // fill the broker, let "willer" be refused with a will on board, make room again
@@ -1593,7 +1609,7 @@ fn run_will_point(case: &WillCase, k: usize, way: u8, ch: &mut Choices, rep: &mu
         if way == 1 {
             sh.probe("keepalive_expiry_waited");
         }
-        let want = if expected { 1 } else { 0 };
+        let want = if expected && !case.late_watcher { 1 } else { 0 };
         if wills != want {
             let class = if wills > want {
                 if wills > 1 {
@@ -1654,6 +1670,51 @@ fn run_will_point(case: &WillCase, k: usize, way: u8, ch: &mut Choices, rep: &mu
             }
         } else {
             sh.probe("will_not_expected");
+        }
+        if case.afterlife {
+            // the same client id lives a second time, without a will, and dies abruptly:
+            // whatever the first life registered is over (fired or discarded)
+            sh.probe("second_life_without_will");
+            let mut w2 = Cli::new(accept(&sh, &ls, case.wv5, "willer2"), case.wv5, "willer2");
+            let spec2 = ConnectSpec {
+                id: "willer".into(),
+                clean: true,
+                keep_alive: 60,
+                will: None,
+                ..Default::default()
+            };
+            if connect_ok(&mut w2, &spec2).await {
+                if sh.coin(1, 2) {
+                    w2.send(&pingreq_bytes()).await;
+                    sleep_ms(20).await;
+                }
+                sh.fault("connection_cut");
+                w2.close();
+                let deadline = tokio::time::Instant::now() + Duration::from_millis(1500);
+                loop {
+                    let now = tokio::time::Instant::now();
+                    if now >= deadline {
+                        break;
+                    }
+                    match v.recv(deadline - now).await {
+                        Rx::Publish { topic, payload, .. } if topic.starts_with("w/") => {
+                            sh.viol(
+                                "will_of_earlier_connection_published_again",
+                                format!("client id \"willer\" connected again without a will and was cut; the subscriber received {topic}/{}", String::from_utf8_lossy(&payload)),
+                            );
+                            return;
+                        }
+                        Rx::Closed => {
+                            sh.viol("watcher_connection_closed", "the watcher's connection was closed");
+                            return;
+                        }
+                        Rx::Timeout => break,
+                        _ => {}
+                    }
+                }
+            } else {
+                sh.probe("second_life_not_admitted");
+            }
         }
         sh.rep.borrow_mut().nontrivial = true;
     })
